@@ -5,7 +5,9 @@ Every seeded/<id>/patch.diff is applied to a scratch worktree of /repo's HEAD (n
 the check that is recorded as catching it (first "Cxx quick" entry of meta.json's caught_by, else the property's own
 check) is run from a scratch copy of /verif with VERIF_REPO pointing at that worktree, and the outcome is written to
 seeded/SWEEP.json: "caught" (exit 1 and a VIOLATION line), "missed" (exit 0), "does-not-apply" (the patch was written
-for an earlier base and no longer applies to the current tree) or "harness-error".  The lanes (worktree + copy + build
+for an earlier base and no longer applies to the current tree) or "harness-error".  A miss is expected ("expected": true)
+where meta.json records the seed as superseded (it no longer breaks the property after a later repair of /repo) or as
+out of scope (empty caught_by); any other miss is a regression of the checks.  The lanes (worktree + copy + build
 trees) live under /tmp/seedsweep and are removed at the end.  Nothing here is used by a registered check.
 """
 import json, os, re, shutil, subprocess, sys, threading, time
@@ -45,7 +47,8 @@ def main():
                 break
         if target is None:
             target = meta["property"]
-        seeds.append({"seed": d, "property": meta["property"], "check": target, "recorded_caught_by": meta.get("caught_by", [])})
+        seeds.append({"seed": d, "property": meta["property"], "check": target, "recorded_caught_by": meta.get("caught_by", []),
+                      "recorded_status": meta.get("status", "")})
     groups = {}
     for s in seeds:
         groups.setdefault(s["check"], []).append(s)
@@ -86,6 +89,7 @@ def main():
                     s["outcome"] = "caught" if (r.returncode == 1 and viol) else "missed" if r.returncode == 0 else "harness-error"
                     if s["outcome"] == "harness-error":
                         s["tail"] = r.stdout[-1500:]
+                s["expected"] = s["outcome"] == "caught" or (s["outcome"] == "missed" and (s["recorded_status"].startswith("superseded") or not s["recorded_caught_by"]))
                 s["seconds"] = round(time.time() - t0)
                 with lock:
                     results.append(s)
@@ -103,6 +107,7 @@ def main():
     results.sort(key=lambda s: s["seed"])
     out = {"repo_head": head, "date": time.strftime("%Y-%m-%d"), "tier": "quick", "results": results,
            "summary": {k: sum(1 for s in results if s["outcome"] == k) for k in ("caught", "missed", "does-not-apply", "harness-error")}}
+    out["summary"]["unexpected"] = sum(1 for s in results if not s.get("expected"))
     if not only:
         json.dump(out, open(os.path.join(VERIF, "seeded", "SWEEP.json"), "w"), indent=1)
     print(json.dumps(out["summary"]))
